@@ -91,3 +91,7 @@ Fixpoint mcstatus_items (fuel : nat) (d : list N) : list (list N) :=
   | O => []
   | S k => if Nat.ltb (length d) 5 then [] else firstn 5 d :: mcstatus_items k (skipn 5 d)
   end.
+
+(* ChannelMask::<N>::new(data): refuses fewer than N bytes, keeps the first N of anything longer *)
+Definition chmask_new (n : nat) (data : list N) : option (list N) :=
+  if Nat.ltb (length data) n then None else Some (firstn n data).
